@@ -156,7 +156,81 @@ def worker(job):
             if backend != 'dict':
                 with guarded(part, f'C04 delivery {backend}', dict(backend=backend, scenario='delivery', seed=seed * 100 + k)):
                     asyncio.run(delivery_history(part, backend, random.Random(seed * 100 + k + 7)))
+    for k in range(max(1, ncases // 8)):
+        for backend in ('dict', 'maildir'):
+            with guarded(part, f'C04 multiappend {backend}', dict(backend=backend, scenario='multiappend', seed=seed * 100 + k)):
+                asyncio.run(multiappend_history(part, backend, random.Random(seed * 100 + k + 13)))
     return part.result()
+
+
+async def multiappend_history(part, backend, r):
+    """several messages in one APPEND, at every alignment of the UID counter: the n-th UID of the APPENDUID set, read in the order it is written, is where UID FETCH
+    finds the n-th message; the set is strictly ascending and ends below UIDNEXT"""
+    from pymap.imap import IMAPServer
+    from .common import wire, backends, imapresp
+    base = None
+    if backend == 'dict':
+        be, config = await backends.make_dict(users=[('u', 'p', ())], bad_command_limit=None)
+        login = be.login
+    else:
+        base = backends.scratch_dir('pymap-verif-c04-')
+        config, login = await backends.make_maildir(base, users=[('u', 'p', ())], bad_command_limit=None)
+    try:
+        srv = IMAPServer(login, config)
+        c = wire.Client(srv)
+        await c.start()
+        await c.send(b'a LOGIN u p\r\n')
+        await c.send(b'a CREATE multi\r\n')
+        box = r.choice([b'INBOX', b'multi'])
+        await c.send(b'a SELECT ' + box + b'\r\n')
+        serial = 0
+        high = 0
+        for round_ in range(r.randint(6, 14)):
+            n = r.choice([1, 2, 2, 3, 4, 5, 7])
+            marks = []
+            line = b'a APPEND ' + box
+            for _ in range(n):
+                serial += 1
+                marks.append(b'mark-%04d' % serial)
+                m_ = b'Subject: ' + marks[-1] + b'\r\n\r\nx\r\n'
+                line += b' {%d+}\r\n' % len(m_) + m_
+            raw = await c.send(line + b'\r\n')
+            case = dict(scenario='multiappend', backend=backend, mailbox=box.decode(), round=round_, messages=n, reply=raw[-80:].decode('latin1'))
+            part.case(key=f'multiappend:{backend}:{round_}:{n}:{high}', nontrivial=n > 1, sample=case)
+            part.stat('multiappend')
+            mt = re.search(rb'\[APPENDUID (\d+) ([0-9:,]+)\]', raw)
+            if b'a OK' not in raw or not mt:
+                continue
+            uids = []
+            for tok in mt.group(2).split(b','):
+                lo, _, hi = tok.partition(b':')
+                uids += list(range(int(lo), int(hi or lo) + 1)) if int(hi or lo) >= int(lo) else list(range(int(lo), int(hi) - 1, -1))
+            if len(uids) != n:
+                part.violation('monitor', f'{backend}: APPEND of {n} messages answered APPENDUID {mt.group(2).decode()}: {len(uids)} UIDs', case, signature='appenduid-count')
+                continue
+            if uids != sorted(uids) or len(set(uids)) != n or uids[0] <= high:
+                part.violation('monitor', f'{backend}: APPEND of {n} messages answered APPENDUID {mt.group(2).decode()}: not strictly ascending above {high}', case, signature='appenduid-order')
+            high = max([high] + uids)
+            out = await c.send(b'a UID FETCH %d:%d (UID BODY.PEEK[HEADER.FIELDS (SUBJECT)])\r\n' % (min(uids), max(uids)))
+            found = {}
+            for resp in imapresp.parse(out):
+                f = imapresp.fetch_items(resp)
+                if f and b'UID' in f[1]:
+                    body = next((v.val for k_, v in f[1].items() if k_.startswith(b'BODY[') and isinstance(v, imapresp.Tok)), b'')
+                    found[int(f[1][b'UID'].val)] = body
+            for pos, (u, mark) in enumerate(zip(uids, marks)):
+                if mark not in found.get(u, b''):
+                    part.violation('monitor', f'{backend}: APPEND of {n} messages answered APPENDUID {mt.group(2).decode()}: message #{pos + 1} ({mark.decode()}) is reported as UID {u}, '
+                                   f'where UID FETCH finds {found.get(u, b"nothing")[:40]!r}', case, signature='appenduid-pairing')
+                    break
+            st = await c.send(b'a STATUS ' + box + b' (UIDNEXT)\r\n')
+            mn = re.search(rb'UIDNEXT (\d+)', st)
+            if mn and int(mn.group(1)) <= high:
+                part.violation('monitor', f'{backend}: UIDNEXT {int(mn.group(1))} after UID {high} was assigned', case, signature='uidnext-low')
+        await c.eof()
+    finally:
+        if base:
+            backends.rmtree(base)
 
 
 # ------------------------------------------------------------------ delivery by a foreign writer (maildir): files appear in new/ without a UID record
